@@ -243,6 +243,11 @@ def check(ctx):
     # secondary options need; then the same sweeps from PRIMED bases, in which a primary option is already on, so that the
     # secondary ones (sort keys, weights, prefer-int-on-left, force-c-comment, brace_nl) have something to act on
     lang_units = [(lg, u) for lg in langunits.UNITS for u in langunits.units(lg)]
+    # body-less declarations ('struct S;' is where a semicolon pass has to tell a needed ';' from an extra one) next to bodies
+    # closed by '};' - in every language that has the keywords
+    fwd = "struct Opaque;\nunion Blob;\nenum Mode;\nstruct WithBody { int a; };\nenum Listed { LA, LB };\nint after_fwd;\n"
+    for lg in ("C", "CPP", "D", "CS", "VALA", "OC"):
+        lang_units.append((lg, ("lang:fwd-decls", ("class Fwd;\n" if lg in ("CPP", "D") else "").encode() + fwd.encode(), {"ctx": "lang"})))
     for lg, pr in lang_units:
         G(pr, lg, "defaults", {}, mod_family, None, 1)
         if not quick:
